@@ -37,6 +37,7 @@ func vConcrete(x int) int
 func vAssume(c bool)
 func vAssert(id string, c bool)
 func vAssertEqBytes(id string, a, b []byte)
+func vAssertEqBytesEither(id string, a, b, c []byte)
 func vReach(id string)
 func vUnroll(n int)
 func vNoMerge()
@@ -130,6 +131,11 @@ func vAssert(id string, c bool) {
 }
 func vAssertEqBytes(id string, a, b []byte) {
 	if !bytes.Equal(a, b) {
+		vFailedIDs = append(vFailedIDs, id)
+	}
+}
+func vAssertEqBytesEither(id string, a, b, c []byte) {
+	if !bytes.Equal(a, b) && !bytes.Equal(a, c) {
 		vFailedIDs = append(vFailedIDs, id)
 	}
 }
